@@ -221,6 +221,12 @@ pub fn main(ctx: &Ctx) -> i32 {
                 if flags.oneway {
                     req.insert("oneway".into(), json!(true));
                 }
+                // the upgrade flag on calls whose method does not upgrade the connection: the
+                // flag reaches the interface like the others and changes nothing else
+                let upgrade_flag = rng.chance(1, 6);
+                if upgrade_flag {
+                    req.insert("upgrade".into(), json!(true));
+                }
                 let mut bytes = serde_json::to_vec(&Value::Object(req.clone())).unwrap();
                 bytes.push(0);
                 cfg.log.lock().unwrap().clear();
@@ -228,7 +234,7 @@ pub fn main(ctx: &Ctx) -> i32 {
                 let calls: Vec<Ev> = cfg.log.lock().unwrap().iter().filter(|e| matches!(e, Ev::Call { .. })).cloned().collect();
                 let want = spec(&cfg, m, &params);
                 let nontrivial = !cfg.names.is_empty() || m.starts_with("org.varlink.service.");
-                ctx.case(if nontrivial { Some(hash_of(&(&cfg.names, cfg.with_gen, cfg.with_fmt, m, flags, params.as_ref().map(|p| p.to_string())))) } else { None });
+                ctx.case(if nontrivial { Some(hash_of(&(&cfg.names, cfg.with_gen, cfg.with_fmt, m, flags, upgrade_flag, params.as_ref().map(|p| p.to_string())))) } else { None });
                 ctx.count("recorder_calls_observed", calls.len() as u64);
                 let wit = |msg: String| json!({"engine": "c03", "registered": cfg.names, "with_generated": cfg.with_gen, "with_generated_fmt": cfg.with_fmt, "request": Value::Object(req.clone()), "reply_bytes": show(&run.out), "closed": run.closed, "recorder_calls": format!("{:?}", calls), "message": msg});
                 if let Some(p) = &run.panicked {
@@ -256,7 +262,7 @@ pub fn main(ctx: &Ctx) -> i32 {
                                 ctx.violation("c03:routing:wrong-interface", wit(format!("reached {} instead of {}", got, name)));
                                 continue;
                             }
-                            if method != m || *more != flags.more || *oneway != flags.oneway || *upgrade || gp != &params {
+                            if method != m || *more != flags.more || *oneway != flags.oneway || *upgrade != upgrade_flag || gp != &params {
                                 ctx.violation("c03:routing:request-changed", wit(format!("recorder saw method={} more={} oneway={} params={:?}", method, more, oneway, gp)));
                                 continue;
                             }
